@@ -26,6 +26,7 @@ type Op struct {
 	Name    string
 	Writer  bool // changes (or may change) the durable state
 	C0, C1  int  // storage calls [C0, C1)
+	W0, W1  int  // physical batch writes [W0, W1)
 	Outcome string
 	Err     bool
 	Panic   string
@@ -38,6 +39,7 @@ type Runner struct {
 	Cache int
 	Flush int
 	Probe bool // run the read probes after every step
+	SnapImages bool // copy the store after every physical write (crash images)
 
 	Mem  *dbm.MemDB
 	FDB  *faultdb.DB
@@ -66,7 +68,7 @@ func hx(b []byte) string {
 
 // do runs f as one op under test.
 func (r *Runner) do(step int, name string, writer bool, f func() (string, error)) (stop bool) {
-	op := Op{Step: step, Name: name, Writer: writer, C0: r.FDB.Calls()}
+	op := Op{Step: step, Name: name, Writer: writer, C0: r.FDB.Calls(), W0: r.FDB.Writes}
 	func() {
 		defer func() {
 			if p := recover(); p != nil {
@@ -81,6 +83,7 @@ func (r *Runner) do(step int, name string, writer bool, f func() (string, error)
 		}
 	}()
 	op.C1 = r.FDB.Calls()
+	op.W1 = r.FDB.Writes
 	r.Ops = append(r.Ops, op)
 	return op.Panic != ""
 }
@@ -98,6 +101,7 @@ func (r *Runner) Run(failAt int, stopAfterOps int) {
 	r.Mem = dbm.NewMemDB()
 	r.FDB = faultdb.New(r.Mem)
 	r.FDB.FailAt = failAt
+	r.FDB.Snap = r.SnapImages
 	r.Ops = nil
 	r.exporters = map[int64]*iavl.Exporter{}
 	r.iv = r.B.Steps[0].IV
@@ -407,6 +411,14 @@ func (r *Runner) probes(i int, s *model.Step, stopAfterOps int) bool {
 // and their contents/hashes must be those after step pre (state before the op) or post.
 // It returns "pre", "post", "pre=post" or a description of what is wrong.
 func Durable(img map[string][]byte, b *model.Behaviour, step int, pal *palette.Palette, fast bool, opts []iavl.Option) string {
+	return DurableAlt(img, b, step, pal, fast, opts, nil)
+}
+
+// StateAfter exposes the specification's durable state after a step.
+func StateAfter(b *model.Behaviour, i int) *State { return stateAfter(b, i) }
+
+// DurableAlt is Durable with additional admissible states: "alt" is returned if one of them matches.
+func DurableAlt(img map[string][]byte, b *model.Behaviour, step int, pal *palette.Palette, fast bool, opts []iavl.Option, alts []*State) string {
 	pre := stateAfter(b, step-1)
 	post := stateAfter(b, step)
 	db := faultdb.Restore(img)
@@ -428,8 +440,64 @@ func Durable(img map[string][]byte, b *model.Behaviour, step int, pal *palette.P
 		return "Load() fails: " + lerr.Error()
 	}
 	defer t.Close()
+	match := func(st *State) string { return matchState(t, lv, st, pal) }
+	mpre, mpost := match(pre), match(post)
+	switch {
+	case mpre == "" && mpost == "":
+		return "pre=post"
+	case mpre == "":
+		return "pre"
+	case mpost == "":
+		return "post"
+	}
+	for _, a := range alts {
+		if match(a) == "" {
+			return "alt"
+		}
+	}
+	return fmt.Sprintf("neither the state before (%s) nor after (%s) the operation", mpre, mpost)
+}
+
+// State is the specification's durable state after a step.
+type State struct {
+	First, Latest int64
+	Saved         map[int64]*model.Tree
+}
+
+// stateAfter replays the specification's records up to step i (-1: the empty store).
+func stateAfter(b *model.Behaviour, i int) *State {
+	st := &State{Saved: map[int64]*model.Tree{}}
+	for j := 0; j <= i && j < len(b.Steps); j++ {
+		s := b.Steps[j]
+		if (s.Op == "save" || s.Op == "savecs") && !s.Ret.Err && !s.Ret.Noop {
+			st.Saved[s.Ret.Ver] = s.Ret.Tree
+		}
+		if s.Op == "import" {
+			st.Saved = map[int64]*model.Tree{s.Args.T: s.Ret.Tree}
+		}
+		st.First, st.Latest = s.First, s.Latest
+		for v := range st.Saved {
+			if v < st.First || v > st.Latest {
+				delete(st.Saved, v)
+			}
+		}
+	}
+	return st
+}
+
+// SortedKinds summarises call kinds.
+func SortedKinds(m map[string]int) []string {
+	var out []string
+	for k, n := range m {
+		out = append(out, fmt.Sprintf("%s:%d", k, n))
+	}
+	sort.Strings(out)
+	return out
+}
+
+func matchState(t *iavl.MutableTree, lv int64, st *State, pal *palette.Palette) string {
 	h := hashref.Hasher{Key: pal.Key, Value: pal.Value}
-	match := func(st *State) string {
+
 		if lv != st.Latest {
 			return fmt.Sprintf("latest %d != %d", lv, st.Latest)
 		}
@@ -472,51 +540,15 @@ func Durable(img map[string][]byte, b *model.Behaviour, step int, pal *palette.P
 		}
 		return ""
 	}
-	mpre, mpost := match(pre), match(post)
-	switch {
-	case mpre == "" && mpost == "":
-		return "pre=post"
-	case mpre == "":
-		return "pre"
-	case mpost == "":
-		return "post"
-	}
-	return fmt.Sprintf("neither the state before (%s) nor after (%s) the operation", mpre, mpost)
-}
 
-// State is the specification's durable state after a step.
-type State struct {
-	First, Latest int64
-	Saved         map[int64]*model.Tree
-}
-
-// stateAfter replays the specification's records up to step i (-1: the empty store).
-func stateAfter(b *model.Behaviour, i int) *State {
-	st := &State{Saved: map[int64]*model.Tree{}}
-	for j := 0; j <= i && j < len(b.Steps); j++ {
-		s := b.Steps[j]
-		if (s.Op == "save" || s.Op == "savecs") && !s.Ret.Err && !s.Ret.Noop {
-			st.Saved[s.Ret.Ver] = s.Ret.Tree
-		}
-		if s.Op == "import" {
-			st.Saved = map[int64]*model.Tree{s.Args.T: s.Ret.Tree}
-		}
-		st.First, st.Latest = s.First, s.Latest
-		for v := range st.Saved {
-			if v < st.First || v > st.Latest {
-				delete(st.Saved, v)
-			}
-		}
+// MatchDetail opens the image and says why it does not match the state ("" if it does).
+func MatchDetail(img map[string][]byte, st *State, pal *palette.Palette, fast bool) string {
+	db := faultdb.Restore(img)
+	t := iavl.NewMutableTree(db, 0, !fast, logger)
+	lv, err := t.Load()
+	if err != nil {
+		return "Load: " + err.Error()
 	}
-	return st
-}
-
-// SortedKinds summarises call kinds.
-func SortedKinds(m map[string]int) []string {
-	var out []string
-	for k, n := range m {
-		out = append(out, fmt.Sprintf("%s:%d", k, n))
-	}
-	sort.Strings(out)
-	return out
+	defer t.Close()
+	return matchState(t, lv, st, pal)
 }
